@@ -9,6 +9,7 @@ import (
 	"os"
 	"path/filepath"
 	"sort"
+	"sync"
 	"strings"
 	"time"
 
@@ -492,7 +493,7 @@ func init() {
 					return err
 				}
 			}
-			v1.ks, err = ksrig.V1(v1.dir, masterKey, keystore.WithoutCache)
+			v1.ks, err = ksrig.V1(v1.dir, append([]byte{}, masterKey...), keystore.WithoutCache)
 			return err
 		},
 		run: func(in []byte) error {
@@ -530,8 +531,6 @@ func init() {
 			note(err)
 			_, err = v1.ks.GetPoisonSymmetricKeys()
 			note(err)
-			_, err = v1.ks.GetLogSecretKey()
-			note(err)
 			_, err = v1.ks.ListKeys()
 			note(err)
 			return first
@@ -544,6 +543,8 @@ func init() {
 		plain  []byte
 		keys   []byte
 	}
+	var bundleOnce sync.Once
+	var theBundle *bundleState
 	mkBundle := func(kind string, keys, data []byte) art {
 		a := nb(kind).u8("keys_len", uint64(len(keys))).bytes(keys)
 		base := a.len()
@@ -553,22 +554,20 @@ func init() {
 	}
 	reg(&target{name: "ks1.import-bundle", group: "keystore",
 		prepare: func(g *gen.Rand) interface{} {
-			w := getWorld()
-			enc, _ := keystore.NewSCellKeyEncryptor(masterKey)
-			bk, err := filesystem.NewKeyBackuper(w.dir, w.dir, &filesystem.DummyStorage{}, enc, w.ks)
-			if err != nil {
-				panic(err)
-			}
-			b, err := bk.Export(nil, keystore.ExportAllKeys)
-			if err != nil {
-				panic(err)
-			}
-			st := &bundleState{bundle: mkBundle("bundle", b.Keys, b.Data), keys: append([]byte{}, b.Keys...)}
-			dec, _ := keystore.NewSCellKeyEncryptor(append([]byte{}, b.Keys...))
-			if plain, err := dec.Decrypt(context.Background(), b.Data, keystore.NewEmptyKeyContext(nil)); err == nil {
-				st.plain = plain
-			}
-			return st
+			bundleOnce.Do(func() {
+				w := getWorld()
+				b := w.bundle
+				if b == nil {
+					panic(fmt.Sprintf("no export bundle of the fresh keystore; files: %v", listKeyFiles(w.dir)))
+				}
+				st := &bundleState{bundle: mkBundle("bundle", b.Keys, b.Data), keys: append([]byte{}, b.Keys...)}
+				dec, _ := keystore.NewSCellKeyEncryptor(append([]byte{}, b.Keys...))
+				if plain, err := dec.Decrypt(context.Background(), b.Data, keystore.NewEmptyKeyContext(nil)); err == nil {
+					st.plain = plain
+				}
+				theBundle = st
+			})
+			return theBundle
 		},
 		gen: func(g *gen.Rand, sti interface{}, i int) ([]byte, string, string) {
 			st := sti.(*bundleState)
@@ -592,7 +591,7 @@ func init() {
 				return err
 			}
 			v1sink = &sinkStorage{}
-			enc, _ := keystore.NewSCellKeyEncryptor(masterKey)
+			enc, _ := keystore.NewSCellKeyEncryptor(append([]byte{}, masterKey...))
 			v1backuper, err = filesystem.NewKeyBackuper(w.dir, w.dir, v1sink, enc, w.ks)
 			return err
 		},
